@@ -82,6 +82,24 @@ B("B60", "C14-R1", [(SD, '''            # Attractor data computed while the node
 B("B61", "C14-R1", [(SCC, '''    if not sd.node_data(attach_at)["expanded"] or sd.node_data(attach_at)["skipped"]:
         # Data computed''', '''    if sd.node_data(attach_at)["expanded"]:
         # Data computed''')], "attach: reset guarded by the wrong polarity")
+B("B320", ["C12-C"], [(SD, """            if len(seeds) > 0:
+                result = compute_attractors_symbolic(""", """            if len(seeds) > 1:
+                result = compute_attractors_symbolic(""")],
+  "node_attractor_sets computes no set for a node with exactly one seed (mutation sweep 2)")
+B("B319", ["C03-G"], [("biobalm/_sd_algorithms/expand_source_blocks.py", """            if len(successors) == 1 and not check_maa:""",
+                       """            if len(successors) == 2 and not check_maa:""")],
+  "expand_source_blocks schedules only successors[0] of a node with two successors (mutation sweep 2)")
+B("B318", ["C09-T3"], [("biobalm/trappist_core.py", """    if solution_limit is not None and solution_limit <= 0:
+        return results
+""", """    if solution_limit is not None and solution_limit <= 1:
+        return results
+""", 2)],
+  "both solvers answer [] for limit 1 (the pruning probe asks with limit 1) (mutation sweep 2)")
+B("B317", ["C20-M5"], [(SD, """                attrs = self.node_attractor_seeds(node, compute=False)
+            except KeyError:
+                continue""", """                attrs = self.node_attractor_seeds(node, compute=False)
+            except KeyError:
+                pass""")], "summary: a node without computed seeds is listed with the previous node's attractors (mutation sweep 2)")
 B("B315", ["C08-K4"], [(CAND, """            filtered_candidates.append(valuation_to_state(symbolic_ctx, state_val))""", """            pass""")],
   "run_simulation_minification (no avoid set): the surviving states are never collected (mutation sweep)")
 B("B316", ["C12-D"], [("biobalm/_sd_attractors/attractor_symbolic.py", """                        all_done = False  # The main loop should continue.
